@@ -843,4 +843,4 @@ LEVEL_TEXT = ("Kernel-checked for every distance matrix, balancing factor and br
               "a not yet connected point to an already connected, unsaturated one that minimises edge length + bf·(path length of the attachment point); after n-1 "
               "iterations every point has exactly one parent chain to point 0; no non-exempt point exceeds the limit. For bf=0 without a limit the total length equals the minimum over all "
               "connected spanning edge lists of a symmetric non-negative matrix (prim_minimal + prim_attains: Prim's exchange argument, every n); Kruskal is the independent oracle.")
-LEVEL_NOTE = "Trusted: Lean kernel; model tied by correspondence on the code's float64 distance matrix; float rounding of costs; numpy masked argmin."
+LEVEL_NOTE = "Trusted: Lean kernel; model proved equal to the translated __call__ (soma handling, distance matrix from a parametric norm, greedy loop, table assembly, constructors, final sort) and compared on the code's float64 distance matrix; float rounding of costs; numpy masked argmin."
